@@ -116,6 +116,16 @@ theorem validUtf8_string (s : String) : validUtf8 s.toUTF8.data.toList = true :=
 
 /-! ## Refusal -/
 
+/-- A float argument is either refused or sent with exactly its own binary32 pattern: a finite value beyond
+    the binary32 range (|x| ≥ 2^128 − 2^103, no pattern) raises OverflowError — it is never sent as an
+    infinity — and everything else (±inf, the largest binary32, subnormals, ...) goes out verbatim. -/
+theorem float_refused_or_verbatim (v : Rat) (bits : Nat) (hb : bits < 4294967296) :
+    (f32Overflows v = true → writeArg (.float (f32Pattern v bits)) = .error .overflow) ∧
+    (f32Overflows v = false → writeArg (.float (f32Pattern v bits)) = .ok (be32 bits)) := by
+  constructor
+  · intro h; simp [f32Pattern, h, writeArg]
+  · intro h; simp [f32Pattern, h, writeArg, hb]
+
 /-- Values without a faithful representation are refused: an int outside int32, a `str` with an
     embedded NUL or one that cannot be encoded, an empty blob.  (Refusal = no bytes: the builders
     return `Except.error`, nothing is sent.) -/
